@@ -166,6 +166,7 @@ def _handle_redirect(
                     stage_id=message.stage_id,
                     task_id=message.task_id,
                     status=result.status,
+                    jump_count=int(stage.context.get("_jump_count", 0) or 0),
                 ),
                 None,
             ),
